@@ -20,6 +20,18 @@ def main():
     prog = IR.load_program(a.repo)
     spec = Spec(prog)
     print('loaded %d functions, %d contracts (%d unbound) in %.1fs' % (len(prog.funcs), len(spec.sf.contracts), len(spec.unbound), time.time() - t0))
+    for lem in spec.sf.lemmas:
+        if a.fn and not any(x in ('lemma:' + (lem.label or '')) for x in a.fn):
+            continue
+        t1 = time.time()
+        try:
+            ex = verify.verify_lemma(prog, spec, lem)
+        except EngineError as e:
+            print('ENGINE-ERROR lemma', lem.label, e)
+            continue
+        res = verify.discharge(ex.obls, a.timeout)
+        for r in res:
+            print('   %-7s %-70s %.2fs %s %s' % (r.status, r.name, r.time, r.solver, (r.reason or '')[:80]))
     for con in spec.sf.contracts.values():
         if a.fn and not any(x in con.target for x in a.fn):
             continue
